@@ -7,6 +7,7 @@ APIs); the other theorems state the clauses outright for every model state that 
 Segmentation of the byte stream is the subject of C07 (the frame decoder); here a frame is one event.
 -/
 import Sonic.Props.C08
+import Sonic.Props.WsFrameTie
 
 set_option linter.unusedSimpArgs false
 
